@@ -175,7 +175,9 @@ class ObservableResource(Resource, interfaces.ObservableResource):
         should be sent to observers."""
 
         for o in self._observations:
-            o.trigger(response)
+            # every observer's notification gets its own token, Observe number,
+            # message ID and type, so each needs a message object of its own
+            o.trigger(response.copy() if response is not None else None)
 
     def get_link_description(self):
         link = super(ObservableResource, self).get_link_description()
